@@ -21,7 +21,23 @@ for p in ["C%02d" % i for i in range(1, 21)]:
 for (p, k, src, conf, run, rnd) in JOBS:
     if True:
         if not (os.path.exists(src + "/patch.diff") and os.path.exists(conf)):
-            print("skip", p, k); continue
+            # the agent's scratch output is gone (fresh restore): keep the banked seed as it is and only refresh what the checks
+            # report, if a run file for it exists
+            d = os.path.join(OUT, "%s-%d" % (p, k))
+            mp = os.path.join(d, "meta.json")
+            if os.path.exists(mp) and os.path.exists(run):
+                meta = json.load(open(mp))
+                fired = []
+                for ln in open(run):
+                    m = re.match(r"FIRES (C\d+): (.*)", ln)
+                    if m:
+                        fired.append({"property": m.group(1), "rules": sorted(set(re.findall(r"rule=([A-Za-z0-9\-]+)", m.group(2))))})
+                meta["reported_by"] = fired
+                meta["detected"] = bool(fired)
+                json.dump(meta, open(mp, "w"), indent=1)
+            elif not os.path.exists(mp):
+                print("skip", p, k)
+            continue
         c = json.load(open(conf))
         ok_clean = c["demo_without_patch"].startswith("test result: ok")
         ok_fail = any(x in (c["demo_with_patch"] + c.get("demo_with_patch_release", "")) for x in ("FAILED", "error"))
